@@ -7,7 +7,6 @@
 From Coq Require Import NArith List String Bool.
 From Falco Require Import Base.TablesBase Model.ScopeMask Model.LintTables Model.LintOps Model.TablesDomain Model.InterpAssign.
 From Falco Require Import Gen.ObsVars Gen.ObsOps Gen.ObsCoerce Gen.ObsInferred Gen.KnownGaps.
-From Falco Require Import Proofs.TablesProofs.
 Import ListNotations.
 Local Open Scope N_scope.
 Local Open Scope string_scope.
